@@ -180,6 +180,19 @@ Theorem C03_step_rename_partial : forall (s : fsys) (sv : sview) (wo : list str)
   (fst (rename s (sv_view sv) o p), proj_res Linux (snd (rename s (sv_view sv) o p))) = go_rename s sv o p.
 Proof. exact dstep_rename_file_new. Qed.
 
+(* Rename of a directory to a name that does not exist.  [moved_dir_writable]: listed C03-RENAME-DIR-WRITE;
+   [not_into_itself]: the two own-subtree tests (string prefix / ancestor walk) both say no - their agreement is not
+   proved here *)
+Theorem C03_step_rename_dir_partial : forall (s : fsys) (sv : sview) (wo : list str) (clo : str) (w : list str) (cl : str),
+  dac_hyps s sv -> path_ok s sv SlLstat (wo ++ [clo]) -> path_ok s sv SlLstat (w ++ [cl]) ->
+  source_is_dir s sv (wo ++ [clo]) -> dest_absent s sv (w ++ [cl]) -> rename_one_error s sv (wo ++ [clo]) (w ++ [cl]) ->
+  no_sticky_refusal s sv (wo ++ [clo]) -> not_into_itself s sv (wo ++ [clo]) (w ++ [cl]) ->
+  moved_dir_writable s sv (wo ++ [clo]) (w ++ [cl]) ->
+  let o := abs_path (wo ++ [clo]) in
+  let p := abs_path (w ++ [cl]) in
+  (fst (rename s (sv_view sv) o p), proj_res Linux (snd (rename s (sv_view sv) o p))) = go_rename s sv o p.
+Proof. exact dstep_rename_dir_new. Qed.
+
 (* the step theorem at the level of worlds, and for histories (induction over call lists): [dcovered] collects the
    hypotheses above per call *)
 Theorem C03_step : forall (phl : bool) (w : world) (vi : nat) (sw : sworld) (c : call),
